@@ -296,6 +296,8 @@ func (r *runningRoutine) execute(
 		select {
 		case <-ctx.Done():
 			err = context.Canceled
+			// the previous instance must exit before we signal that we exited
+			<-waitCh
 		case <-waitCh:
 		}
 	} else if ctx.Err() != nil {
